@@ -7,6 +7,7 @@ to `WireLaw`: what the protocol stacks (connect-go, grpc-go, net/http — outsid
 assumed to do to metadata; the end-to-end half of the correspondence checks that on every run.
 -/
 import ConfModel.Lemmas.Echo
+import ConfModel.Lemmas.EchoLoad
 namespace ConfModel.Props.C02
 open ConfModel.Echo
 
@@ -392,6 +393,124 @@ private def ex3 : TC :=
     get := false, codec := .proto, method := .std, explicit := none,
     udef := some ⟨[⟨"H", ["1"]⟩], [⟨"T", ["2"]⟩], .error ⟨3, some "m", []⟩⟩ }
 example : WellFormed ex3 = true ∧ WireLaw ex3 (idWire ex3) = true ∧ agree .unary (expected ex3) (actual ex3 (idWire ex3) true) = true := by decide
+
+/-! ## Loading: which shapes are rejected
+
+`EchoLoad.load` is the model of `parseTestSuites` followed by `newTestCaseLibrary` (with
+`expandRequestData`, `expandSuite`, `expandCases`, `populateExpectedResponse`) over the part of the
+suite schema C02 quantifies over; `applies` says whether the configuration has cases for a suite at
+all.  That the model returns an error or a library and nothing else is totality; the theorems say
+WHICH inputs get the error. -/
+section Load
+open ConfModel.EchoLoad
+
+/-- **Which shapes are rejected.**  `parseTestSuites` followed by `newTestCaseLibrary` accepts a set
+of suites exactly when it is `Loadable`; everything else is answered with an error (and the model,
+like the code, has no third outcome). -/
+theorem load_accepts_iff (applies : Suite → Bool) (mode : Nat) (ss : List Suite) :
+    load applies mode ss = .ok () ↔ Loadable applies mode ss := by
+  unfold load Loadable
+  cases hp : firstSome (fun s => firstSome (parseCase s) s.cases) ss with
+  | some e =>
+    simp only [reduceCtorEq, false_iff]
+    intro h
+    have : firstSome (fun s => firstSome (parseCase s) s.cases) ss = none :=
+      (firstSome_none_iff _ ss).2 (fun s hs => (firstSome_none_iff _ s.cases).2
+        (fun c hc => (parseCase_none_iff s c).2 (h.1 s hs c hc)))
+    rw [hp] at this; cases this
+  | none =>
+    have hp' : ∀ s ∈ ss, ∀ c ∈ s.cases, ParseOk s c := fun s hs c hc =>
+      (parseCase_none_iff s c).1 ((firstSome_none_iff _ s.cases).1 ((firstSome_none_iff _ ss).1 hp s hs) c hc)
+    simp only []
+    cases hl : libLoop applies mode [] 0 ss with
+    | error e =>
+      simp only [reduceCtorEq, false_iff]
+      rintro ⟨_, h2, h3, h4, _⟩
+      have : LoopOk applies mode [] 0 (0 + (ss.map (contrib applies mode)).sum) ss :=
+        ⟨h2, ⟨h3, fun _ _ => by simp⟩, fun s hs ha => ⟨(h4 s hs ha).1, fun hap =>
+          ⟨fun c hc => ⟨(((h4 s hs ha).2 hap).1 c hc).1, (((h4 s hs ha).2 hap).1 c hc).2.1,
+            fun hr => ((((h4 s hs ha).2 hap).1 c hc).2.2 hr).1⟩, ((h4 s hs ha).2 hap).2⟩⟩, rfl⟩
+      have := (libLoop_ok_iff applies mode ss [] 0 _).2 this
+      rw [hl] at this; cases this
+    | ok n =>
+      obtain ⟨h2, ⟨h3, _⟩, h4, hn⟩ := (libLoop_ok_iff applies mode ss [] 0 n).1 hl
+      simp only [Nat.zero_add] at hn
+      simp only []
+      by_cases h0 : n = 0
+      · simp only [h0, beq_self_eq_true, ↓reduceIte, reduceCtorEq, false_iff]
+        rintro ⟨_, _, _, _, h5⟩
+        have := (sum_contrib_pos applies mode ss).2 h5
+        omega
+      · have h0b : (n == 0) = false := by simpa using h0
+        have h5 := (sum_contrib_pos applies mode ss).1 (by omega)
+        simp only [h0b, Bool.false_eq_true, ↓reduceIte]
+        cases hq : firstSome (fun s => if admitted mode s && applies s then firstSome populateCheck (s.cases.filter runnable) else none) ss with
+        | some e =>
+          simp only [reduceCtorEq, false_iff]
+          rintro ⟨_, _, _, h4', _⟩
+          have : firstSome (fun s => if admitted mode s && applies s then firstSome populateCheck (s.cases.filter runnable) else none) ss = none := by
+            apply (firstSome_none_iff _ ss).2
+            intro s hs
+            cases hb : (admitted mode s && applies s) with
+            | false => simp
+            | true =>
+              simp only [↓reduceIte]
+              simp only [Bool.and_eq_true] at hb
+              apply (firstSome_none_iff _ _).2
+              intro c hc
+              have hcm := List.mem_filter.mp hc
+              exact (populateCheck_none_iff c).2
+                (((((h4' s hs ((admitted_iff mode s).1 hb.1)).2 hb.2).1 c hcm.1).2.2 ((runnable_iff c).1 hcm.2)).2)
+          rw [hq] at this; cases this
+        | none =>
+          simp only [true_iff]
+          refine ⟨hp', h2, h3, fun s hs ha => ⟨(h4 s hs ha).1, fun hap => ⟨fun c hc => ?_, ((h4 s hs ha).2 hap).2⟩⟩, h5⟩
+          obtain ⟨hc1, hc2, hc3⟩ := ((h4 s hs ha).2 hap).1 c hc
+          refine ⟨hc1, hc2, fun hr => ⟨hc3 hr, ?_⟩⟩
+          have hs' := (firstSome_none_iff _ ss).1 hq s hs
+          simp only [(admitted_iff mode s).2 ha, hap, Bool.and_self, ↓reduceIte] at hs'
+          exact (populateCheck_none_iff c).1
+            ((firstSome_none_iff _ _).1 hs' c (List.mem_filter.mpr ⟨hc, (runnable_iff c).2 hr⟩))
+
+/-- the reading the property asks for: a set of suites is REJECTED (some error — which one depends
+on the order the files are visited in) exactly when it is not `Loadable` -/
+theorem load_rejects_iff (applies : Suite → Bool) (mode : Nat) (ss : List Suite) :
+    (∃ e, load applies mode ss = .error e) ↔ ¬ Loadable applies mode ss := by
+  rw [← load_accepts_iff]
+  cases h : load applies mode ss with
+  | error e => simp
+  | ok u => cases u; simp
+
+
+/-- the expectation generator called directly (also on stream types the library never passes on):
+it accepts a case exactly when the expectation is given, or the stream type is one of the five and
+the first request message — if there is one — is of the family that stream type's generator reads -/
+theorem populate_direct_accepts_iff (c : EchoLoad.Case) :
+    populateDirect c = none ↔ (c.explicit = true ∨ (Runnable c ∧ PopulateOk c)) :=
+  populateDirect_none_iff c
+
+/-! non-vacuity: a loadable pair of suites; single departures from it that are rejected -/
+private def lcase : EchoLoad.Case := ⟨"a", 1, false, false, [.unary], false, false, false, []⟩
+private def lsuite : EchoLoad.Suite := ⟨"S", 0, false, [], false, false, false, 0, [lcase, { lcase with name := "b", st := 5, msgs := [.bidi, .bidi] }]⟩
+private def lget : EchoLoad.Suite := ⟨"G", 1, true, [1], false, false, true, 0, [{ lcase with msgs := [.idempotent], expand := [.fits] }]⟩
+example : loadErr cfgApplies 1 [lsuite, lget] = none := by decide
+example : Loadable cfgApplies 1 [lsuite, lget] := (load_accepts_iff _ _ _).1 (by
+  have : loadErr cfgApplies 1 [lsuite, lget] = none := by decide
+  unfold loadErr at this
+  split at this
+  · next u h => cases u; exact h
+  · cases this)
+example : loadErr cfgApplies 1 [lsuite, { lget with name := "S" }] = some .suiteDuplicate := by decide
+example : loadErr cfgApplies 2 [{ lsuite with mode := 1 }, lget] = some .noCases := by decide
+example : loadErr cfgApplies 1 [{ lsuite with cases := [{ lcase with msgs := [.bidi] }] }] = some .populateNotUnary := by decide
+example : loadErr cfgApplies 1 [{ lsuite with cases := [{ lcase with msgs := [.clientStream, .other] }] }] = none := by decide
+example : loadErr cfgApplies 1 [{ lget with onlyConnect := false }] = some .misconfigured := by decide
+example : loadErr cfgApplies 1 [{ lget with codecs := [1, 2] }] = some .expandCodecs := by decide
+example : loadErr cfgApplies 1 [{ lsuite with tls := true, cases := [{ lcase with name := "" }] }, lget] = none := by decide
+example : populateDirect { lcase with st := 0 } = some .streamTypeRequired ∧ populateDirect { lcase with st := 9 } = some .streamTypeUnsupported ∧
+    populateDirect { lcase with st := 9, explicit := true } = none ∧ populateDirect { lcase with msgs := [.broken] } = some .populateUnmarshal := by decide
+
+end Load
 
 /-! Non-vacuity of the Connect GET and unimplemented-method theorems. -/
 /-- the transport of a GET call as connect-go makes it (proto codec): `base64`, `connect`,
